@@ -6,7 +6,8 @@
 From Coq Require Import List NArith Arith Bool Lia ZifyBool ZifyNat ZifyN.
 From LBZ Require Import Common.Bits Gen.Consts Gen.DecTabs Dec.Prog Dec.Format Dec.Sim Dec.Policies Dec.Total
                         Safe.TreeModel Safe.TreeLemmas Safe.TreeProofs
-                        Safe.RetrModel Safe.RetrChunk Safe.RetrInv Safe.RetrStepHdr Safe.RetrStepSel Safe.RetrStepSym Safe.RetrSafe Safe.RetrSpec.
+                        Safe.RetrModel Safe.RetrChunk Safe.RetrInv Safe.RetrStepHdr Safe.RetrStepSel Safe.RetrStepSym Safe.RetrSafe Safe.RetrSpec
+                        Safe.RetrWin Safe.RetrRefHdr Safe.RetrRefSel Safe.RetrRefSym.
 Import ListNotations.
 Local Open Scope N_scope.
 
@@ -65,90 +66,15 @@ Proof. dcore c. destruct p as [[]| |], a; exact (fun H => H). Qed.
 Lemma Kof_bufset f c a v w : Kof f (bufset c v w) a = Kof f c a.
 Proof. dcore c. destruct a; reflexivity. Qed.
 
-Section WithRefs.
-(* TEMPORARY section: the block lemmas (Safe/RetrRefHdr.v, RetrRefSel.v, RetrRefSym.v) *)
-Hypothesis ref_bwt : forall c f nx, J_bwt c -> buf_ok c -> 32 <= c_w c ->
-  exists c', after_bwt_idx c = BNeed S_bitmap_big c' /\ R_big c' (d_rand c') (d_bwt_idx c') /\
-             run (K_start f) (strm c nx) = run (K_big f (d_rand c') (d_bwt_idx c')) (strm c' nx).
-Hypothesis ref_inner : forall n c rnd idx big i used f nx, R_small c rnd idx big i used -> buf_ok c -> (16 - i <= n)%nat -> 16 <= c_w c ->
-  (32 <= c_w c \/ (r_alpha_size c = 0 /\ r_small c = 0)) ->
-  match bitmap_from_inner n c with
-  | BNeed S_bitmap_small c' =>
-      exists i' used', R_small c' rnd idx big i' used' /\
-        run (K_inner f rnd idx big i used (r_small c)) (strm c nx) = run (K_inner f rnd idx big i' used' (r_small c')) (strm c' nx)
-  | BNeed S_selector_mtf c' =>
-      exists h selm, R_sel c' h selm /\
-        run (K_inner f rnd idx big i used (r_small c)) (strm c nx) = run (K_sels f h selm) (strm c' nx)
-  | BRet _ _ => exists e, run (K_inner f rnd idx big i used (r_small c)) (strm c nx) = Err e
-  | _ => True
-  end.
-Hypothesis ref_big : forall c rnd idx f nx, R_big c rnd idx -> buf_ok c -> 32 <= c_w c ->
-  match after_bitmap_big c with
-  | BNeed S_bitmap_small c' =>
-      exists big i' used', R_small c' rnd idx big i' used' /\
-        run (K_big f rnd idx) (strm c nx) = run (K_inner f rnd idx big i' used' (r_small c')) (strm c' nx)
-  | BRet _ _ => exists e, run (K_big f rnd idx) (strm c nx) = Err e
-  | _ => True
-  end.
-Hypothesis ref_delta : forall c h selm tables lens f nx, R_deltaH c h selm tables lens -> buf_ok c -> 6 <= c_w c ->
-  (length (strm c nx) < f)%nat ->
-  match delta_head c with
-  | BNeed S_delta_tag c' =>
-      exists lens', R_delta c' h selm tables lens' /\
-        run (K_lens f h selm tables lens (h_alpha h - length lens) (cl c (r_j c))) (strm c nx) =
-        run (K_lens f h selm tables lens' (h_alpha h - length lens') (cl c' (r_j c'))) (strm c' nx)
-  | BGo P_TREE c' =>
-      exists tables', R_tree c' h selm tables' /\
-        run (K_lens f h selm tables lens (h_alpha h - length lens) (cl c (r_j c))) (strm c nx) =
-        run (K_tables f h selm tables') (strm c' nx)
-  | BRet _ _ => exists e, run (K_lens f h selm tables lens (h_alpha h - length lens) (cl c (r_j c))) (strm c nx) = Err e
-  | _ => True
-  end.
-Hypothesis ref_tree : forall c h selm tables f nx, R_tree c h selm tables -> buf_ok c -> 32 <= c_w c ->
-  (length (strm c nx) < f)%nat ->
-  match tree_head c with
-  | BNeed S_delta_tag c' =>
-      exists lens', R_delta c' h selm tables lens' /\
-        run (K_tables f h selm tables) (strm c nx) =
-        run (K_lens f h selm tables lens' (h_alpha h - length lens') (cl c' (r_j c'))) (strm c' nx)
-  | BGo P_GROUP c' =>
-      R_group c' h selm tables 0 [] /\
-      run (K_tables f h selm tables) (strm c nx) = run (K_group h selm tables 0 []) (strm c' nx)
-  | BRet _ _ => exists e, run (K_tables f h selm tables) (strm c nx) = Err e
-  | _ => True
-  end.
-Hypothesis ref_sel : forall c h selm f nx, R_selH c h selm -> buf_ok c -> 6 <= c_w c -> (r_j c = r_num_selectors c -> 32 <= c_w c) ->
-  (length (strm c nx) < f)%nat ->
-  match sel_head c with
-  | BNeed S_selector_mtf c' =>
-      exists selm', R_sel c' h selm' /\ run (K_sels f h selm) (strm c nx) = run (K_sels f h selm') (strm c' nx)
-  | BNeed S_delta_tag c' =>
-      exists lens', R_delta c' h selm [] lens' /\
-        run (K_sels f h selm) (strm c nx) =
-        run (K_lens f h selm [] lens' (h_alpha h - length lens') (cl c' (r_j c'))) (strm c' nx)
-  | BRet _ _ => exists e, run (K_sels f h selm) (strm c nx) = Err e
-  | _ => True
-  end.
-Hypothesis ref_group : forall c h selm tables g syms nx, R_group c h selm tables g syms -> buf_ok c -> 12 <= c_w c ->
-  match fst (group_head false c []) with
-  | BNeed S_prefix c' =>
-      exists lens, R_prefix c' h selm tables g syms lens 50 /\
-        run (K_group h selm tables g syms) (strm c nx) = run (K_prefix h selm tables g syms lens 50) (strm c' nx)
-  | BRet _ _ => spec_fails (K_group h selm tables g syms) (strm c nx)
-  | _ => True
-  end.
-Hypothesis ref_prefix : forall c h selm tables g syms lens n nx, R_prefix c h selm tables g syms lens n -> buf_ok c -> 32 <= c_w c ->
-  match after_prefix c with
-  | BNeed S_prefix c' =>
-      exists syms' n', R_prefix c' h selm tables g syms' lens n' /\
-        run (K_prefix h selm tables g syms lens n) (strm c nx) = run (K_prefix h selm tables g syms' lens n') (strm c' nx)
-  | BGo P_GROUP c' =>
-      exists syms', R_group c' h selm tables (S g) syms' /\
-        run (K_prefix h selm tables g syms lens n) (strm c nx) = run (K_group h selm tables (S g) syms') (strm c' nx)
-  | BRet _ _ => spec_fails (K_prefix h selm tables g syms lens n) (strm c nx)
-  | BEob c' => spec_done (K_prefix h selm tables g syms lens n) (strm c nx) c' nx
-  | _ => True
-  end.
+Lemma group_head_false_shape c o : J_group c o ->
+  match fst (group_head false c []) with BNeed S_prefix _ => True | BRet _ _ => True | _ => False end.
+Proof.
+  intro HJ. unfold group_head. pose proof (group_select_ok c o HJ) as G.
+  destruct (group_select c) as [c1|r]; cbn [andb fst].
+  - unfold slow_head. replace (r_j (set_r_j c1 0)) with 0 by (dcore c1; reflexivity).
+    change (0 <? GROUP_SIZE) with true. exact I.
+  - destruct r; auto; contradiction.
+Qed.
 
 Lemma err_fails p bits e : run p bits = Err e -> spec_fails p bits.
 Proof. unfold spec_fails. intros ->. exact I. Qed.
@@ -163,8 +89,6 @@ Definition bres_ref (f : nat) (c : core) (a : astate) (nx : list N) (r : bres) :
   | BFault _ => True
   end.
 
-Lemma strm_frame c c' nx : c_v c' = c_v c -> c_w c' = c_w c -> strm c' nx = strm c nx.
-Proof. intros Ev Ew. unfold strm, bufq. rewrite Ev, Ew. reflexivity. Qed.
 
 Lemma sstep_ref f p c a nx : Rel p c a -> buf_ok c -> wlo p <= c_w c -> (length (strm c nx) < f)%nat ->
   bres_ref f c a nx (sstep p c).
@@ -175,14 +99,14 @@ Proof.
     destruct (ref_bwt c f nx HR HB Hw) as (c' & -> & R' & E). cbn [bres_ref].
     exists (ABig (d_rand c') (d_bwt_idx c')). split; [exact R'|exact E].
   - pose proof (ref_big c rnd idx f nx HR HB Hw) as A.
-    pose proof (after_bitmap_big_ok c (proj1 HR) HB Hw) as S.
+    pose proof (after_bitmap_big_ok c (proj1 HR) HB Hw) as SF.
     destruct (after_bitmap_big c) as [| [] c'| | |]; cbn [bres_ref]; auto; try contradiction.
     + destruct A as (big & i' & used' & R' & E). exists (ASmall rnd idx big i' used'). split; [exact R'|exact E].
     + destruct A as (e & E). eapply err_fails; exact E.
   - unfold after_bitmap_small.
     pose proof (ref_inner 16 c rnd idx big i used f nx HR HB ltac:(lia) ltac:(lia) (or_introl Hw)) as A.
     destruct HR as (fl0 & HJ0 & _).
-    pose proof (bitmap_from_inner_ok 16 c i fl0 HJ0 HB ltac:(lia) ltac:(lia) (or_introl Hw)) as S.
+    pose proof (bitmap_from_inner_ok 16 c i fl0 HJ0 HB ltac:(lia) ltac:(lia) (or_introl Hw)) as SF.
     destruct (bitmap_from_inner 16 c) as [| [] c'| | |]; cbn [bres_ref]; auto; try contradiction.
     + destruct A as (i' & used' & R' & E). exists (ASmall rnd idx big i' used'). split; [exact R'|exact E].
     + destruct A as (h & selm & R' & E). exists (ASel h selm). split; [exact R'|exact E].
@@ -203,7 +127,7 @@ Proof.
     assert (S1 : strm c1 nx = strm c nx) by (apply strm_frame; subst c1; dcore c; reflexivity).
     assert (W1 : c_w c1 = c_w c) by (subst c1; dcore c; reflexivity).
     pose proof (ref_sel c1 h selm f nx R1 B1 ltac:(lia) ltac:(lia) ltac:(rewrite S1; exact Hf)) as A.
-    pose proof (sel_head_ok c1 fl J1 B1 ltac:(lia) ltac:(lia)) as S.
+    pose proof (sel_head_ok c1 fl J1 B1 ltac:(lia) ltac:(lia)) as SF.
     rewrite S1 in A.
     destruct (sel_head c1) as [| [] c'| | |]; cbn [bres_ref]; auto; try contradiction.
     + destruct A as (selm' & R' & E). exists (ASel h selm'). split; [exact R'|exact E].
@@ -214,7 +138,7 @@ Proof.
     assert (R1 : R_deltaH c h selm tables lens).
     { exists fl. split; [apply J_deltaN_delta; exact HJ|]. auto. }
     pose proof (ref_delta c h selm tables lens f nx R1 HB ltac:(lia) Hf) as A.
-    pose proof (delta_head_ok c fl (J_deltaN_delta _ _ HJ) HB ltac:(lia)) as S.
+    pose proof (delta_head_ok c fl (J_deltaN_delta _ _ HJ) HB ltac:(lia)) as SF.
     destruct (delta_head c) as [[[]| |] c'| [] c'| | |]; cbn [bres_ref]; auto; try contradiction.
     + destruct A as (tables' & R' & E). exists (ATree h selm tables'). split; [exact R'|exact E].
     + destruct A as (lens' & R' & E). exists (ADelta h selm tables lens'). split; [exact R'|exact E].
@@ -222,14 +146,14 @@ Proof.
   - (* A_PREFIX *)
     pose proof (ref_prefix c h selm tables g syms lens n nx HR HB Hw) as A.
     destruct HR as (o & HJ & _).
-    pose proof (after_prefix_ok c o HJ HB Hw) as S.
+    pose proof (after_prefix_ok c o HJ HB Hw) as SF.
     destruct (after_prefix c) as [[[]| |] c'| [] c'| | |]; cbn [bres_ref]; auto; try contradiction.
     + destruct A as (syms' & R' & E). exists (AGroup h selm tables (S g) syms'). split; [exact R'|exact E].
     + destruct A as (syms' & n' & R' & E). exists (APrefix h selm tables g syms' lens n'). split; [exact R'|exact E].
   - (* P_TREE *)
     pose proof (ref_tree c h selm tables f nx HR HB Hw Hf) as A.
     destruct HR as (fl & HJ & _).
-    pose proof (tree_head_ok c fl HJ HB Hw) as S.
+    pose proof (tree_head_ok c fl HJ HB Hw) as SF.
     destruct (tree_head c) as [[[]| |] c'| [] c'| | |]; cbn [bres_ref]; auto; try contradiction.
     + destruct A as (R' & E). exists (AGroup h selm tables 0%nat []). split; [exact R'|exact E].
     + destruct A as (lens' & R' & E). exists (ADelta h selm tables lens'). split; [exact R'|exact E].
@@ -237,8 +161,317 @@ Proof.
   - (* P_GROUP *)
     pose proof (ref_group c h selm tables g syms nx HR HB Hw) as A.
     destruct HR as (o & HJ & _).
-    pose proof (group_slow_ok c o HJ HB Hw) as S.
-    destruct (fst (group_head false c [])) as [| [] c'| | |]; cbn [bres_ref bres_ok] in *; auto; try contradiction.
-    + admit.
-    + destruct A as (lens & R' & E). exists (APrefix h selm tables g syms lens 50%nat). split; [exact R'|exact E].
+    pose proof (group_head_false_shape c o HJ) as SF.
+    destruct (fst (group_head false c [])) as [| [] c'| | |]; cbn [bres_ref]; auto; try contradiction.
+    destruct A as (lens & R' & E). exists (APrefix h selm tables g syms lens 50%nat). split; [exact R'|exact E].
 Qed.
+
+(* ---- read_block is K_start --------------------------------------------------------------------------------------------- *)
+Lemma read_block_K f bits : run (read_block lbz_policy f) bits = run (K_start f) bits.
+Proof.
+  unfold read_block, K_start, K_big, K_smalls, read_bitmap.
+  rewrite !run_bind. destruct (run (take 1) bits) as [[rnd r1]|e]; [|reflexivity].
+  rewrite !run_bind. destruct (run (take 24) r1) as [[idx r2]|e]; [|reflexivity].
+  rewrite !run_bind. destruct (run (take 16) r2) as [[big r3]|e]; [|reflexivity].
+  rewrite !run_bind. destruct (run (read_smalls big 0 16) r3) as [[used r4]|e]; [|reflexivity].
+  cbn [app]. unfold K_post. rewrite !run_bind.
+  destruct (run (guard (negb (N.of_nat (length used) =? 0)) ErrBitmap) r4) as [[u r5]|e]; [|reflexivity].
+  rewrite !run_bind. destruct (run (take 3) r5) as [[nt r6]|e]; [|reflexivity].
+  rewrite !run_bind. destruct (run (guard ((2 <=? nt) && (nt <=? 6)) ErrTrees) r6) as [[u2 r7]|e]; [|reflexivity].
+  rewrite !run_bind. destruct (run (take 15) r7) as [[ns r8]|e]; [|reflexivity].
+  rewrite !run_bind. destruct (run (guard (negb (ns =? 0)) ErrGroups) r8) as [[u3 r9]|e]; [|reflexivity].
+  unfold K_sels. cbn [h_ns h_nt length app]. rewrite Nat.sub_0_r. rewrite !run_bind.
+  destruct (run (repeat_prog (N.to_nat ns) (read_unary (N.to_nat nt) 0)) r9) as [[selm r10]|e]; [|reflexivity].
+  unfold K_tables. cbn [h_nt length app]. rewrite Nat.sub_0_r. unfold h_alpha. cbn [h_used]. rewrite !run_bind.
+  destruct (run (repeat_prog (N.to_nat nt) (read_table lbz_policy f (length used + 2))) r10) as [[tables r11]|e]; [|reflexivity].
+  unfold K_group, sels_of, h_eob, h_alpha. cbn [h_used skipn app]. rewrite !run_bind.
+  destruct (run (read_groups lbz_policy tables (N.of_nat (length used + 2) - 1) _) r11) as [[mtfv r12]|e]; reflexivity.
+Qed.
+
+(* ---- a run of the slow machine against what remains to be read ------------------------------------------------------------ *)
+(* the block would end with fewer than 32 bits behind it: retrieve() says ERR_EOF where the format description may still
+   succeed (NEED asks for a whole word) *)
+Definition short (res : result (raw_block * list bool)) : Prop :=
+  forall rb rest, res = Ok (rb, rest) -> (length rest < 32)%nat.
+
+Definition fails (res : result (raw_block * list bool)) : Prop :=
+  match res with Err _ => True | Ok (rb, _) => exists e, RetrSpec.post rb = Err e end.
+
+Definition fin_res (res : result (raw_block * list bool)) (r : cres) : Prop :=
+  match r with
+  | ROk st' =>
+      exists rb, res = Ok (rb, strm (s_core st') (l_next st')) /\
+        RetrSpec.post rb = Ok (negb (d_rand (s_core st') =? 0), d_bwt_idx (s_core st'), rev (c_tt (s_core st'))) /\
+        d_block_size st' = N.of_nat (length (c_tt (s_core st'))) /\ b_data st' = l_next st'
+  | RErr code _ => fails res \/ (code = E_ERR_EOF /\ short res)
+  | RMore _ => short res
+  | RFault _ => True
+  end.
+
+Lemma short_of_len p bits : (length bits < 32)%nat -> short (run p bits).
+Proof. intros H rb rest E. apply run_rest_le in E. lia. Qed.
+
+Lemma finish_ref res st c' nx : l_next st = nx ->
+  (exists rb, res = Ok (rb, strm c' nx) /\ unmtf_block MAX_BLOCK_SIZE (rb_used rb) (rb_mtfv rb) = Ok (rev (c_tt c')) /\
+     c_ttp c' = N.of_nat (length (c_tt c')) /\ rb_rand rb = negb (d_rand c' =? 0) /\ rb_idx rb = d_bwt_idx c') ->
+  fin_res res (finish (with_core st c')).
+Proof.
+  intros En (rb & E & U & Ht & Er & Ei). unfold finish. cbn [save with_core s_core d_block_size].
+  assert (P : RetrSpec.post rb = if N.of_nat (length (rev (c_tt c'))) =? 0 then Err ErrEmpty
+              else if N.of_nat (length (rev (c_tt c'))) <=? rb_idx rb then Err ErrBwtIdx
+              else Ok (rb_rand rb, rb_idx rb, rev (c_tt c'))) by (unfold RetrSpec.post; rewrite U; reflexivity).
+  rewrite rev_length, <- Ht, Ei in P.
+  destruct (c_ttp c' =? 0) eqn:E0.
+  - cbn [fin_res]. left. unfold fails. rewrite E. eexists. exact P.
+  - destruct (c_ttp c' <=? d_bwt_idx c') eqn:E1.
+    + cbn [fin_res]. left. unfold fails. rewrite E. eexists. exact P.
+    + cbn [fin_res s_core l_next d_block_size save with_core b_data]. exists rb. rewrite En. split; [exact E|].
+      split; [|split; [exact Ht|reflexivity]]. rewrite P, Er. reflexivity.
+Qed.
+
+Lemma ref_run f : forall fuel p st a, Rel p (s_core st) a -> buf_ok (s_core st) -> wlo p <= c_w (s_core st) ->
+  words_ok (l_next st) -> (length (strm (s_core st) (l_next st)) < f)%nat ->
+  fin_res (run (Kof f (s_core st) a) (strm (s_core st) (l_next st))) (run_from false fuel p st).
+Proof.
+  induction fuel as [|fuel IH]; intros p st a HR HB Hw HW Hf; [exact I|].
+  rewrite run_from_S, onestep_false.
+  pose proof (sstep_ref f p (s_core st) a (l_next st) HR HB Hw Hf) as SR.
+  pose proof (sstep_ok p (s_core st) (conj (Rel_Jp _ _ _ HR) (conj HB Hw))) as SO.
+  destruct (sstep p (s_core st)) as [p' c'|s c'|code c'|c'|fl]; cbn [after bres_ref bres_ok] in *.
+  - destruct SR as (a' & R' & E). destruct SO as ((J' & B' & W') & Hd). cbn [cont]. rewrite E.
+    apply (IH p' (with_core st c') a'); cbn [s_core with_core l_next]; auto.
+    pose proof (strm_length (s_core st) (l_next st)). pose proof (strm_length c' (l_next st)).
+    unfold sigma in Hd. destruct p as [[]| |], p' as [[]| |]; lia.
+  - destruct SR as (a' & R' & E). destruct SO as (J' & B' & Hd). rewrite E.
+    assert (Hlen : (length (strm c' (l_next st)) <= length (strm (s_core st) (l_next st)))%nat).
+    { pose proof (strm_length (s_core st) (l_next st)). pose proof (strm_length c' (l_next st)).
+      unfold sigma in Hd. destruct p as [[]| |], s; lia. }
+    unfold need_at. cbn [s_core with_core l_next].
+    destruct (N.ltb_spec (c_w c') 32) as [Hlt|Hge].
+    + destruct (l_next st) as [|x r] eqn:EN.
+      * (* the chunk is exhausted *)
+        assert (SH : short (run (Kof f c' a') (strm c' []))).
+        { apply short_of_len. pose proof (strm_length c' []). cbn [length] in *. lia. }
+        cbn [save with_core b_eof]. destruct (b_eof st); cbn [cont fin_res]; [right; split; [reflexivity|exact SH]|exact SH].
+      * inversion HW as [|? ? Hx Hr]; subst. destruct B' as (q & Hq).
+        destruct (load_ok c' q x Hq Hlt Hx) as (c'' & -> & Ec & Hq'). cbn [cont].
+        assert (Ew : c_w c'' = c_w c' + 32) by (rewrite Ec; dcore c'; reflexivity).
+        rewrite <- (strm_load c' q x c'' r Hq Hlt Hx Hq' Ew).
+        replace (Kof f c' a') with (Kof f c'' a') by (rewrite Ec; apply Kof_bufset).
+        apply (IH (After s) (with_next (with_core (with_core st c') c'') r) a'); cbn [s_core with_core with_next l_next].
+        -- rewrite Ec. apply (Rel_bufset (After s) c' a'). exact R'.
+        -- exists (q * 2 ^ 32 + x). exact Hq'.
+        -- destruct s; cbn [wlo]; lia.
+        -- exact Hr.
+        -- rewrite (strm_load c' q x c'' r Hq Hlt Hx Hq' Ew). lia.
+    + cbn [cont]. apply (IH (After s) (with_core st c') a'); cbn [s_core with_core l_next]; auto;
+        try (destruct s; cbn [wlo]; lia); try lia.
+  - cbn [cont fin_res]. left. exact SR.
+  - cbn [cont]. apply (finish_ref _ st c' (l_next st) eq_refl). exact SR.
+  - exact I.
+Qed.
+
+(* ---- calls ------------------------------------------------------------------------------------------------------------------ *)
+(* the bits in the bit buffer the block starts with *)
+Definition init_bits (st : rstate) : list bool :=
+  bits_msb (N.to_nat (b_live st)) (b_buff st / 2 ^ (64 - b_live st)).
+
+Lemma strm_restore st : strm (s_core (restore st)) (b_data st) = init_bits st ++ wbits (b_data st).
+Proof. destruct st as [c nx ss bl bb bd be bs]. unfold strm, bufq, init_bits. cbn. dcore c. reflexivity. Qed.
+
+(* the first call *)
+Lemma ref_first f fuel st : init_ok st -> words_ok (b_data st) ->
+  (length (init_bits st ++ wbits (b_data st)) < f)%nat ->
+  fin_res (run (K_start f) (init_bits st ++ wbits (b_data st))) (retrieve_f fuel false st).
+Proof.
+  intros (Hs & Hsh & Htt & Hbs & Hl & q & Hq & Hb) HW Hf. rewrite <- strm_restore in *.
+  rewrite retrieve_f_enter. unfold enter.
+  cbn [restore with_next with_core s_state]. rewrite Hs. change (S_INIT =? S_INIT) with true. cbn iota.
+  set (st1 := restore st) in *.
+  assert (J1 : J_bwt (s_core st1)).
+  { subst st1. unfold restore. cbn [s_core with_next with_core]. unfold J_bwt, tt0. rewrite Hbs.
+    destruct st as [c nx ss bl bb bd be bs]. cbn in *. dcore c. rsa. repeat split; auto; apply Hsh. }
+  assert (B1 : buf_ok (s_core st1)).
+  { exists q. subst st1. destruct st as [c nx ss bl bb bd be bs]. cbn in *. dcore c. unfold buf_is. rsa. auto. }
+  assert (N1 : l_next st1 = b_data st) by (subst st1; destruct st; reflexivity).
+  rewrite <- N1 in *.
+  unfold need_at. destruct (N.ltb_spec (c_w (s_core st1)) 32) as [Hlt|Hge].
+  - destruct (l_next st1) as [|x r] eqn:EN.
+    + assert (SH : short (run (K_start f) (strm (s_core st1) []))).
+      { apply short_of_len. pose proof (strm_length (s_core st1) []). cbn [length] in *. lia. }
+      cbn [save b_eof]. destruct (b_eof st1); cbn [fin_res]; [right; split; [reflexivity|exact SH]|exact SH].
+    + inversion HW as [|? ? Hx Hr]; subst. destruct B1 as (q1 & Hq1).
+      destruct (load_ok (s_core st1) q1 x Hq1 Hlt Hx) as (c' & -> & Ec & Hq').
+      assert (Ew : c_w c' = c_w (s_core st1) + 32) by (rewrite Ec; dcore (s_core st1); reflexivity).
+      rewrite <- (strm_load (s_core st1) q1 x c' r Hq1 Hlt Hx Hq' Ew).
+      apply (ref_run f fuel A_BWT_IDX (with_next (with_core st1 c') r) ABwt); cbn [s_core with_core with_next l_next Rel wlo].
+      * rewrite Ec. apply (Rel_bufset A_BWT_IDX (s_core st1) ABwt). exact J1.
+      * exists (q1 * 2 ^ 32 + x). exact Hq'.
+      * lia.
+      * exact Hr.
+      * rewrite (strm_load (s_core st1) q1 x c' r Hq1 Hlt Hx Hq' Ew). exact Hf.
+  - apply (ref_run f fuel A_BWT_IDX st1 ABwt); cbn [Rel wlo]; auto.
+Qed.
+
+Lemma Ret_gen b st r : Ret b st r -> final_ok (retrieve_gen b st) -> r = retrieve_gen b st.
+Proof.
+  intros HR HF. eapply Ret_det; [exact HR|]. exists (call_fuel st). split; [reflexivity|].
+  intro E. rewrite E in HF. exact HF.
+Qed.
+
+Lemma concat_words_ok cs : Forall words_ok cs -> words_ok (concat cs).
+Proof. induction 1; cbn; [constructor|]. apply Forall_app. split; assumption. Qed.
+
+(* the slow machine on a single chunk *)
+Lemma ref_hub f st ws x : init_ok st -> b_eof st = false -> words_ok ws ->
+  (length (init_bits st ++ wbits ws) < f)%nat ->
+  Eval false st (match ws with [] => [] | _ => [ws] end) x ->
+  snd x = [] /\
+  match fst x with
+  | ROk st' =>
+      exists rb, run (K_start f) (init_bits st ++ wbits ws) = Ok (rb, strm (s_core st') (l_next st')) /\
+        RetrSpec.post rb = Ok (negb (d_rand (s_core st') =? 0), d_bwt_idx (s_core st'), rev (c_tt (s_core st'))) /\
+        d_block_size st' = N.of_nat (length (c_tt (s_core st'))) /\ b_data st' = l_next st'
+  | RErr code _ => fails (run (K_start f) (init_bits st ++ wbits ws)) \/
+                   (code = E_ERR_EOF /\ short (run (K_start f) (init_bits st ++ wbits ws)))
+  | RMore _ => False
+  | RFault _ => True
+  end.
+Proof.
+  intros HI He HW Hf E.
+  (* a suspended call followed by end of input is ERR_EOF *)
+  assert (EOF : forall st0 st' r, init_ok st0 -> words_ok (b_data st0) ->
+            (b_data st0 <> [] \/ b_eof st0 = true \/ s_state st0 = S_INIT) ->
+            Ret false st0 (RMore st') -> Ret false (attach_eof st') r -> exists s, r = RErr E_ERR_EOF s).
+  { intros st0 st' r HI0 HW0 HD0 R1 R2.
+    pose proof (retrieve_ok false st0 (or_introl HI0) HW0 HD0) as F1.
+    rewrite <- (Ret_gen _ _ _ R1 F1) in F1. cbn [final_ok] in F1.
+    destruct (eof_call_more false st' F1) as (s' & Es).
+    assert (F2 : final_ok (retrieve_gen false (attach_eof st'))) by (rewrite Es; exact I).
+    rewrite (Ret_gen _ _ _ R2 F2), Es. eauto. }
+  destruct ws as [|w0 ws'].
+  - (* no input at all *)
+    assert (HI' : init_ok (attach_eof st)) by (destruct st; exact HI).
+    assert (HB : b_data (attach_eof st) = []) by (destruct st; reflexivity).
+    assert (HB' : init_bits (attach_eof st) = init_bits st) by (destruct st; reflexivity).
+    inversion E as [st0 r H Hm|st0 st' r H H'| |]; subst; cbn [fst snd].
+    + split; [reflexivity|]. destruct H as (n & H & _).
+      pose proof (ref_first f n (attach_eof st) HI' ltac:(rewrite HB; constructor) ltac:(rewrite HB, HB'; exact Hf)) as R.
+      rewrite HB, HB', H in R. destruct r; cbn [fin_res is_more] in *; auto; discriminate.
+    + split; [reflexivity|].
+      destruct H as (n & H & Fn).
+      pose proof (ref_first f n (attach_eof st) HI' ltac:(rewrite HB; constructor) ltac:(rewrite HB, HB'; exact Hf)) as R.
+      rewrite HB, HB', H in R. cbn [fin_res] in R.
+      destruct (EOF (attach_eof st) st' r HI' ltac:(rewrite HB; constructor)
+                  ltac:(right; right; destruct HI as (Hs & _); destruct st; exact Hs)
+                  (ex_intro _ n (conj H Fn)) H') as (s' & ->).
+      right. split; [reflexivity|exact R].
+  - assert (HI' : init_ok (attach st (w0 :: ws'))) by (destruct st; exact HI).
+    assert (HB : b_data (attach st (w0 :: ws')) = w0 :: ws') by (destruct st; reflexivity).
+    assert (HB' : init_bits (attach st (w0 :: ws')) = init_bits st) by (destruct st; reflexivity).
+    inversion E as [| |st0 ch rest r H Hm|st0 ch rest st' x0 H E']; subst; cbn [fst snd].
+    + split; [reflexivity|]. destruct H as (n & H & _).
+      pose proof (ref_first f n (attach st (w0 :: ws')) HI' ltac:(rewrite HB; exact HW) ltac:(rewrite HB, HB'; exact Hf)) as R.
+      rewrite HB, HB', H in R. destruct r; cbn [fin_res is_more] in *; auto; discriminate.
+    + destruct H as (n & H & Fn).
+      pose proof (ref_first f n (attach st (w0 :: ws')) HI' ltac:(rewrite HB; exact HW) ltac:(rewrite HB, HB'; exact Hf)) as R.
+      rewrite HB, HB', H in R. cbn [fin_res] in R.
+      assert (R1 : Ret false (attach st (w0 :: ws')) (RMore st')) by (exists n; auto).
+      assert (HD : b_data (attach st (w0 :: ws')) <> [] \/ b_eof (attach st (w0 :: ws')) = true \/ s_state (attach st (w0 :: ws')) = S_INIT)
+        by (left; rewrite HB; discriminate).
+      pose proof (retrieve_ok false _ (or_introl HI') ltac:(rewrite HB; exact HW) HD) as F1.
+      rewrite <- (Ret_gen _ _ _ R1 F1) in F1. cbn [final_ok] in F1.
+      inversion E' as [st1 r1 H1 Hm1|st1 st'' r1 H1 H1'| |]; subst; cbn [fst snd].
+      * split; [reflexivity|].
+        destruct (EOF _ st' r1 HI' ltac:(rewrite HB; exact HW) HD R1 H1) as (s' & ->).
+        right. split; [reflexivity|exact R].
+      * exfalso. destruct (EOF _ st' (RMore st'') HI' ltac:(rewrite HB; exact HW) HD R1 H1) as (s' & Es). discriminate.
+Qed.
+
+(* ---- any chunking --------------------------------------------------------------------------------------------------------------- *)
+Lemma strm_obs c1 c2 nx : obs_core c1 = obs_core c2 -> strm c1 nx = strm c2 nx.
+Proof. unfold obs_core. intro H. injection H as Hv Hw _ _ _ _ _. unfold strm, bufq. rewrite Hv, Hw. reflexivity. Qed.
+
+(* (c) REFINEMENT.  [bits]: the bits in the initial bit buffer followed by the bits of all input words.
+   OK: the format description reads a block from the same bits, with the same randomised flag, origin pointer and BWT
+   column (tt[0 .. block_size)), and leaves the same bits unread (saved bit buffer, rest of the current chunk, chunks not
+   attached).  An error return: the format description has no block either - except that retrieve() says ERR_EOF when
+   fewer than 32 bits would be left behind the block. *)
+Theorem retr_refines st cs f : init_ok st -> b_eof st = false -> Forall words_ok cs -> Forall (fun c => c <> []) cs ->
+  (length (init_bits st ++ wbits (concat cs)) < f)%nat ->
+  match retr_chunks st cs with
+  | (ROk st', lo) =>
+      spec_block f (init_bits st ++ wbits (concat cs)) =
+        Ok (negb (d_rand (s_core st') =? 0), d_bwt_idx (s_core st'), rev (c_tt (s_core st')),
+            strm (s_core st') (b_data st' ++ concat lo)) /\
+      d_block_size st' = N.of_nat (length (c_tt (s_core st')))
+  | (RErr code _, _) =>
+      (exists e, spec_block f (init_bits st ++ wbits (concat cs)) = Err e) \/
+      (code = E_ERR_EOF /\ forall r rest, spec_block f (init_bits st ++ wbits (concat cs)) = Ok (r, rest) -> (length rest < 32)%nat)
+  | _ => False
+  end.
+Proof.
+  intros HI He HW HN Hf.
+  pose proof (retr_chunks_ok true cs st (or_introl HI) HW HN) as SAFE. fold (retr_chunks st cs) in SAFE.
+  assert (NF : no_fault (fst (retr_chunks st cs))) by (intros fl E; rewrite E in SAFE; exact SAFE).
+  assert (E1 : Eval true st cs (retr_chunks st cs)) by (apply (retr_chunks_Eval call_fuel true cs st _ eq_refl); apply NF).
+  destruct (Eval_fast_to_slow _ _ _ E1 NF) as (y & Ey & Sy).
+  (* the single chunk *)
+  assert (HUB : exists z, Eval false st (match concat cs with [] => [] | _ => [concat cs] end) z /\ xsim y z).
+  { destruct cs as [|c0 cs'].
+    - exists y. cbn. split; [exact Ey|apply xsim_refl].
+    - destruct (Eval_concat _ (c0 :: cs') st y (le_n _) ltac:(discriminate) HN He Ey) as (z & Ez & Sz).
+      exists z. split; [|exact Sz]. destruct (concat (c0 :: cs')) eqn:EC; [|exact Ez].
+      apply (concat_nil_nonempty _ HN) in EC. discriminate. }
+  destruct HUB as (z & Ez & Syz).
+  destruct (ref_hub f st (concat cs) z HI He (concat_words_ok cs HW) Hf Ez) as (Lz & Hz).
+  assert (Sxz : xsim (retr_chunks st cs) z) by (eapply xsim_trans; [apply xsim_sym; exact Sy|exact Syz]).
+  destruct (retr_chunks st cs) as [r lo]. destruct z as [rz loz]. cbn [fst snd] in *. subst loz.
+  unfold spec_block. rewrite read_block_K.
+  destruct r as [sx|sx|code sx|fl]; destruct rz as [sz|sz|codez sz|flz]; cbn [xsim fst snd] in Sxz; try contradiction.
+  - (* OK *)
+    destruct Sxz as (Ho & Hl & Hb & Hd & Hdata). destruct Hz as (rb & Er & Ep & Es & Esv). symmetry in Esv.
+    rewrite Er, Ep. split.
+    + f_equal. unfold obs_core in Ho. injection Ho as Hv Hw Hp Ht Hr Hi Hf'. rewrite Hr, Hi, Ht.
+      f_equal. rewrite Esv, Hdata. cbn [concat]. rewrite app_nil_r.
+      apply strm_obs. unfold obs_core. congruence.
+    + unfold obs_core in Ho. injection Ho as Hv Hw Hp Ht Hr Hi Hf'. rewrite Hd, Es, Ht. reflexivity.
+  - subst codez. destruct Hz as [Hfail|[-> Hsh]].
+    + left. unfold fails in Hfail. destruct (run (K_start f) _) as [[rb rest]|e]; [|eauto].
+      destruct Hfail as (e & ->). eauto.
+    + right. split; [reflexivity|]. intros r0 rest0 E0.
+      destruct (run (K_start f) _) as [[rb rest]|e] eqn:ER; [|discriminate].
+      destruct (RetrSpec.post rb); [|discriminate]. injection E0 as _ <-. exact (Hsh rb rest eq_refl).
+Qed.
+
+(* completeness: a block of the format with at least 32 bits behind it is delivered *)
+Theorem retr_complete st cs f r rest : init_ok st -> b_eof st = false -> Forall words_ok cs -> Forall (fun c => c <> []) cs ->
+  (length (init_bits st ++ wbits (concat cs)) < f)%nat ->
+  spec_block f (init_bits st ++ wbits (concat cs)) = Ok (r, rest) -> (32 <= length rest)%nat ->
+  exists st' lo, retr_chunks st cs = (ROk st', lo) /\
+    r = (negb (d_rand (s_core st') =? 0), d_bwt_idx (s_core st'), rev (c_tt (s_core st'))) /\
+    rest = strm (s_core st') (b_data st' ++ concat lo) /\
+    d_block_size st' = N.of_nat (length (c_tt (s_core st'))).
+Proof.
+  intros HI He HW HN Hf HS Hr. pose proof (retr_refines st cs f HI He HW HN Hf) as R.
+  destruct (retr_chunks st cs) as [[sx|sx|code sx|fl] lo]; try contradiction.
+  - destruct R as (E & Hd). rewrite HS in E. injection E as -> ->. exists sx, lo. auto.
+  - exfalso. destruct R as [(e & E)|(_ & Hsh)]; [rewrite HS in E; discriminate|].
+    specialize (Hsh r rest HS). lia.
+Qed.
+
+(* rejection: no block in the format, an error code from retrieve() *)
+Theorem retr_rejects st cs f e : init_ok st -> b_eof st = false -> Forall words_ok cs -> Forall (fun c => c <> []) cs ->
+  (length (init_bits st ++ wbits (concat cs)) < f)%nat ->
+  spec_block f (init_bits st ++ wbits (concat cs)) = Err e ->
+  exists code st' lo, retr_chunks st cs = (RErr code st', lo).
+Proof.
+  intros HI He HW HN Hf HS. pose proof (retr_refines st cs f HI He HW HN Hf) as R.
+  destruct (retr_chunks st cs) as [[sx|sx|code sx|fl] lo]; try contradiction.
+  - destruct R as (E & _). rewrite HS in E. discriminate.
+  - eauto.
+Qed.
+
+Print Assumptions retr_refines.
+Print Assumptions retr_complete.
+Print Assumptions retr_rejects.
